@@ -60,6 +60,56 @@ func TestVerifBoundedC07(t *testing.T) {
 		"interface org.example.b\nmethod M(a: int) -> (a: int)\nmethod N(b: (c: (d: (e: int)))) -> ()\ntype U (v: ?[]?[string]?U)\n",
 		"interface org.example.b\nmethod M() -> ()\nmethod N() -> ()\nmethod O() -> ()\nerror E1 ()\nerror E2 (a: int, b: string, c: float)\n",
 	)
+	// collision probes: identifiers the generator derives from a member name must not be able to
+	// collide with another member. For each member kind, every package-level identifier the output
+	// declares that contains the probe name and is itself a legal member name is added as a second
+	// member of each kind.
+	for _, base := range []string{
+		"interface org.example.b\nmethod Zq9Probe(a: int) -> (b: int)\n",
+		"interface org.example.b\nmethod M() -> ()\ntype Zq9Probe (a: int)\n",
+		"interface org.example.b\nmethod M() -> ()\nerror Zq9Probe (a: int)\n",
+	} {
+		_, out, err := generateTemplate(base)
+		if err != nil {
+			continue
+		}
+		f, perr := parser.ParseFile(fset, "probe.go", out, 0)
+		if perr != nil {
+			continue
+		}
+		seen := map[string]bool{}
+		add := func(n string) {
+			if seen[n] || n == "Zq9Probe" || !strings.Contains(n, "Zq9Probe") {
+				return
+			}
+			for i, c := range n {
+				if !(c >= 'A' && c <= 'Z' || (i > 0 && (c >= 'a' && c <= 'z' || c >= '0' && c <= '9'))) {
+					return
+				}
+			}
+			seen[n] = true
+			descs = append(descs, base+"type "+n+" ()\n", base+"method "+n+"() -> ()\n", base+"error "+n+" ()\n")
+		}
+		for _, d := range f.Decls {
+			switch x := d.(type) {
+			case *ast.FuncDecl:
+				if x.Recv == nil {
+					add(x.Name.Name)
+				}
+			case *ast.GenDecl:
+				for _, sp := range x.Specs {
+					switch y := sp.(type) {
+					case *ast.TypeSpec:
+						add(y.Name.Name)
+					case *ast.ValueSpec:
+						for _, n := range y.Names {
+							add(n.Name)
+						}
+					}
+				}
+			}
+		}
+	}
 	fails := 0
 	checked := 0
 	for _, d := range descs {
